@@ -182,7 +182,8 @@ class Row(Vector):
 		if type(key) is int:
 			 return self._raw_cols[key][self._index]
 		
-		if type(key) is str:
+		if isinstance(key, str):
+			# (a str subclass - an enum.StrEnum member - names a column like any other string, as in table[key])
 			# a column of the table, resolved like table[key]: the exact stored name first (first
 			# occurrence), then the accessor names - never a method or attribute of the Row itself
 			col_idx = None
